@@ -16,7 +16,7 @@ import (
 
 // The billing domain's FTP server (a stub): enough of RFC 959 / 2428 for the real
 // jlaffaye/ftp client that internal/cgf drives — USER PASS FEAT TYPE EPSV STOR LIST NOOP
-// QUIT — over the simulated network, with the behaviours a real server shows between two
+// RNFR RNTO QUIT — over the simulated network, with the behaviours a real server shows between two
 // CDR transfers: idle time-out of the control connection, restart (all control
 // connections reset at once), and whatever fault rules the scenario addresses to peer "cgf".
 
@@ -159,6 +159,7 @@ func (s *FTPServer) session(id int, c net.Conn) {
 		}
 	}()
 	user, authed := "", false
+	renameFrom := ""
 	for {
 		var ln ftpLine
 		if s.idleNs > 0 {
@@ -227,6 +228,28 @@ func (s *FTPServer) session(id int, c net.Conn) {
 			}
 			dataLn = l
 			reply("229 Entering Extended Passive Mode (|||%d|)", port)
+		case "RNFR":
+			s.mu.Lock()
+			_, ok := s.files[arg]
+			s.mu.Unlock()
+			if !authed || !ok {
+				reply("550 no such file")
+				continue
+			}
+			renameFrom = arg
+			reply("350 ready for RNTO")
+		case "RNTO":
+			if renameFrom == "" {
+				reply("503 RNFR first")
+				continue
+			}
+			s.mu.Lock()
+			s.files[arg] = s.files[renameFrom]
+			delete(s.files, renameFrom)
+			s.mu.Unlock()
+			s.ev(FTPEvent{Sess: id, What: "rename", Name: arg})
+			renameFrom = ""
+			reply("250 renamed")
 		case "PASV":
 			reply("502 use EPSV")
 		case "STOR", "LIST":
